@@ -123,6 +123,51 @@ class Exact:
         return j, tuple(x // self.D for x in num)
 
 
+def adjdet6(m6):
+    g11, g22, g33, g23, g13, g12 = m6
+    a11 = g22 * g33 - g23 * g23; a22 = g11 * g33 - g13 * g13; a33 = g11 * g22 - g12 * g12
+    a12 = g13 * g23 - g12 * g33; a13 = g12 * g23 - g13 * g22; a23 = g12 * g13 - g11 * g23
+    det = g11 * a11 + g12 * a12 + g13 * a13
+    return (a11, a22, a33, a23, a13, a12), det
+
+
+def min_box6(m6, D, c2, spread, dim=3):
+    """smallest half-widths n with Geom3.range_okb m6 D c2 n spread"""
+    adj, det = adjdet6(m6)
+    out = []
+    for k in range(3):
+        need = adj[k] * c2
+        m = isqrt(max(0, (need + det - 1) // det))
+        while det * m * m < need: m += 1
+        n = 0
+        while D * (n + 1) - spread[k] < m: n += 1
+        out.append(n)
+    if dim == 2: out[2] = 0
+    return tuple(out)
+
+
+def bil6(m6, v, w):
+    g11, g22, g33, g23, g13, g12 = m6
+    gw = (g11 * w[0] + g12 * w[1] + g13 * w[2], g12 * w[0] + g22 * w[1] + g23 * w[2], g13 * w[0] + g23 * w[1] + g33 * w[2])
+    return v[0] * gw[0] + v[1] * gw[1] + v[2] * gw[2]
+
+
+def int_inverse(S):
+    """inverse of a unimodular integer matrix (list of lists), exact"""
+    n = len(S)
+    M = [[Fraction(S[i][j]) for j in range(n)] + [Fraction(int(i == j)) for j in range(n)] for i in range(n)]
+    for c in range(n):
+        p = next(r for r in range(c, n) if M[r][c] != 0)
+        M[c], M[p] = M[p], M[c]
+        M[c] = [x / M[c][c] for x in M[c]]
+        for r in range(n):
+            if r != c and M[r][c] != 0:
+                M[r] = [a - M[r][c] * b for a, b in zip(M[r], M[c])]
+    inv = [[M[i][n + j] for j in range(n)] for i in range(n)]
+    assert all(x.denominator == 1 for r in inv for x in r)
+    return [[int(x) for x in r] for r in inv]
+
+
 # ---- Coq literals -------------------------------------------------------------------------------
 def cv3(v): return "(%s, %s, %s)" % (coq_Z(v[0]), coq_Z(v[1]), coq_Z(v[2]))
 
